@@ -395,6 +395,12 @@ UNITS = [
       tier_defines={"quick": {"KH_N": 2}, "thorough": {"KH_N": 3}}, bound=6, native=None, timeout={"quick": 1800, "thorough": 14000},
       unwindset={"memcmp.0": 93, "key_eq.0": 93, "ski_eq.0": 22, "mk_key.0": 22, "mk_key.1": 93, "h_spki_hist.2": 22, "memcpy.0": 93},
       object_bits=10, stubs=["lrtr_malloc", "lrtr_calloc", "lrtr_realloc", "lrtr_free", "pthread_rwlock_*"]),
+    U(id="mgr_cb", props=["C15"], file="units/mgr.c", entry="h_mgr_cb", defines=["H_ENTRY=h_mgr_cb"], enforce=[], plain=True,
+      checked_by_assertions=["rtr_mgr_cb", "rtr_mgr_close_less_preferable_groups", "get_best_inactive_rtr_mgr_group", "is_some_rtr_mgr_group_established",
+                             "rtr_mgr_config_status_is_synced", "rtr_mgr_start_sockets", "set_status"],
+      need_classes=["assertion"], kind="bounded: the property's stated domain (1..3 groups x 1..2 sockets), one callback from an arbitrary state",
+      bound=5, native=None, timeout=1800, object_bits=10, allow_undefined=True,
+      stubs=["rtr_start", "rtr_stop", "pthread_rwlock_*", "lrtr_dbg"]),
     # ------------------------------------------------------------------ C20
     U(id="c20_state_names", props=["C20"], file="units/c20_state_names.c", entry="h_c20_state",
       enforce=["rtr_state_to_str"], kind="complete", bound=70,
